@@ -11,6 +11,7 @@ definedness obligation on the path.
 from __future__ import annotations
 
 import math
+import os
 import time
 from fractions import Fraction
 
@@ -388,6 +389,109 @@ class Explorer:
         memo[key] = ((r, m), sel_all, term)     # keep the terms alive (ids stay unique)
         return r, m
 
+    # ---- genuine counterexamples from an abstract one: linearising partial concretisation
+    def genuine_model(self, neg, pc=None, defs=None, timeout_ms=10000, rounds=3, prefer=None):
+        """A model of pc AND neg AND the defining equations of the purified products, or None.
+
+        Variables are fixed one at a time at the value the current model gives them until every product/quotient in
+        the defining equations has at most one non-constant factor; equations that have become linear are enforced
+        from then on, so each fix is consistent with what is already determined.  Exact square roots (y*y == t in
+        the path condition) are computed numerically (40 digits) once t is a numeral, so the result satisfies those
+        equations to 1e-30 only: it is a concrete INPUT to be replayed on the real code, never a verdict."""
+        from decimal import Decimal, getcontext
+        pc = list(self.pc if pc is None else pc)
+        defs = list(self.defs if defs is None else defs)
+        t0 = time.time()
+        try:
+            roots = []
+            lin_pc = []
+            for c in pc:
+                sq = _square_def(c)
+                if sq is not None:
+                    roots.append(sq)
+                else:
+                    lin_pc.append(c)
+            eqs = [v == d for v, d in defs]
+            defmap = {v.get_id(): d for v, d in defs}
+            feeds = set()
+            stack = [t for _, t in roots]
+            while stack:
+                e = stack.pop()
+                for vid in self._vars(e):
+                    if vid not in feeds:
+                        feeds.add(vid)
+                        if vid in defmap:
+                            stack.append(defmap[vid])
+            for _round in range(rounds):
+                fixed = {}
+                pending = list(roots)
+                dead = False
+                for _it in range(600):
+                    sub = [(k, val) for k, val in fixed.values()]
+                    cur_eqs = [z3.simplify(z3.substitute(e, *sub)) for e in eqs] if sub else eqs
+                    # square roots whose argument has become a numeral
+                    progressed = False
+                    still = []
+                    for y, t in pending:
+                        tv = z3.simplify(z3.substitute(t, *sub)) if sub else t
+                        if z3.is_rational_value(tv):
+                            fr = Fraction(tv.numerator_as_long(), tv.denominator_as_long())
+                            if fr < 0:
+                                dead = True
+                                break
+                            getcontext().prec = 45
+                            rt = (Decimal(fr.numerator) / Decimal(fr.denominator)).sqrt()
+                            fixed[y.get_id()] = (y, z3.RealVal(str(rt)))
+                            progressed = True
+                        else:
+                            still.append((y, t))
+                    if dead:
+                        break
+                    pending = still
+                    if progressed:
+                        continue
+                    nl = _nonlinear_vars(cur_eqs)
+                    linear_now = [e for e in cur_eqs if not _nonlinear_vars([e])]
+                    s = z3.Solver()
+                    s.set('timeout', timeout_ms)
+                    s.add(*lin_pc)
+                    s.add(neg)
+                    s.add(*linear_now)                     # equations that are already linear are enforced from here on
+                    for var, val in fixed.values():
+                        s.add(var == val)
+                    r = s.check()
+                    self.stats['genuine_attempts'] = self.stats.get('genuine_attempts', 0) + 1
+                    if r != z3.sat:
+                        dead = True
+                        if os.environ.get('VERIF_DEBUG_GM'):
+                            print(f'  [gm] round {_round} dead after {len(fixed)} fixes ({r}); last fixed {[str(v[0]) + "=" + str(v[1])[:12] for v in list(fixed.values())[-3:]]}; pending roots {len(pending)}', flush=True)
+                        break
+                    m = s.model()
+                    cand = None
+                    if nl:
+                        ranked = sorted(nl.values(), key=lambda kv: (-(kv[1] + (1000 if kv[0].get_id() in feeds else 0) + (500 if prefer and prefer(str(kv[0])) else 0)), str(kv[0])))
+                        cand = ranked[min(_round, len(ranked) - 1) if _it == 0 else 0][0]
+                    elif pending:
+                        # remaining (linear) variables under a square root
+                        for y, t in pending:
+                            tv = z3.simplify(z3.substitute(t, *sub)) if sub else t
+                            for e in _consts_of(tv):
+                                if e.get_id() not in fixed:
+                                    cand = e
+                                    break
+                            if cand is not None:
+                                break
+                    if cand is None:
+                        self.stats['genuine_models'] = self.stats.get('genuine_models', 0) + 1
+                        return m
+                    val = m.eval(cand, model_completion=True)
+                    if z3.is_algebraic_value(val):
+                        val = val.approx(20)
+                    fixed[cand.get_id()] = (cand, val)
+            return None
+        finally:
+            self.stats['solver_s'] += time.time() - t0
+
     def prove(self, term, pc=None, timeout_ms=10000, defs=None):
         """Is `term` valid under the path condition? -> ('unsat'=holds | 'sat' | 'unknown', model)"""
         if isinstance(term, SymBool):
@@ -400,6 +504,90 @@ class Explorer:
         r, m = self.check(z3.Not(term), pc=pc, timeout_ms=timeout_ms, defs=defs)
         self.stats['obl_' + r] += 1
         return r, m
+
+
+def _square_def(c):
+    """(y, t) if the conjunct is  y*y == t  (exact square root, see ufs.sqrt)"""
+    if z3.is_eq(c):
+        a, b = c.children()
+        for l, r in ((a, b), (b, a)):
+            if z3.is_app(l) and l.decl().kind() == z3.Z3_OP_MUL and len(l.children()) == 2:
+                p, q = l.children()
+                if z3.is_const(p) and p.decl().kind() == z3.Z3_OP_UNINTERPRETED and p.eq(q):
+                    return p, r
+            if z3.is_app(l) and l.decl().kind() == z3.Z3_OP_POWER and len(l.children()) == 2:
+                p, q = l.children()
+                if z3.is_const(p) and p.decl().kind() == z3.Z3_OP_UNINTERPRETED and z3.is_rational_value(q) and q.numerator_as_long() == 2 and q.denominator_as_long() == 1:
+                    return p, r
+    return None
+
+
+def _consts_of(e):
+    out, seen, stack = [], set(), [e]
+    while stack:
+        x = stack.pop()
+        if x.get_id() in seen:
+            continue
+        seen.add(x.get_id())
+        if z3.is_const(x):
+            if x.decl().kind() == z3.Z3_OP_UNINTERPRETED:
+                out.append(x)
+        else:
+            stack.extend(x.children())
+    return out
+
+
+def _nonlinear_vars(terms):
+    """uninterpreted real/int constants occurring in a product with another non-constant factor or in a divisor:
+    id -> (const, number of such nodes)"""
+    out = {}
+    seen = set()
+
+    def consts(e, acc, memo):
+        i = e.get_id()
+        if i in memo:
+            acc |= memo[i]
+            return
+        mine = set()
+        if z3.is_const(e):
+            if e.decl().kind() == z3.Z3_OP_UNINTERPRETED:
+                mine.add(e)
+        else:
+            for c in e.children():
+                consts(c, mine, memo)
+        memo[i] = mine
+        acc |= mine
+    memo = {}
+    stack = list(terms)
+    while stack:
+        e = stack.pop()
+        i = e.get_id()
+        if i in seen:
+            continue
+        seen.add(i)
+        if z3.is_app(e):
+            k = e.decl().kind()
+            ch = e.children()
+            if k == z3.Z3_OP_MUL:
+                sets = []
+                for c in ch:
+                    a = set()
+                    consts(c, a, memo)
+                    if a:
+                        sets.append(a)
+                if len(sets) >= 2:
+                    for a in sets:
+                        for v in a:
+                            o = out.setdefault(v.get_id(), [v, 0])
+                            o[1] += 1
+            elif k in (z3.Z3_OP_DIV, z3.Z3_OP_IDIV, z3.Z3_OP_MOD, z3.Z3_OP_POWER) and len(ch) == 2:
+                a = set()
+                consts(ch[1], a, memo)
+                for v in a:
+                    o = out.setdefault(v.get_id(), [v, 0])
+                    o[1] += 1
+            stack.extend(ch)
+    return {k: (v[0], v[1]) for k, v in out.items()}
 
 
 # --------------------------------------------------------------------------
